@@ -1,0 +1,115 @@
+//! Verification hooks (cargo feature `verif-hooks`, off by default).
+//!
+//! Nothing in here is compiled unless the feature is enabled and
+//! with the feature enabled nothing changes until a hook is armed.
+//! All state is thread-local so that parallel test workers
+//! do not interfere with each other.
+
+use std::cell::Cell;
+
+// ======================================================================
+// CONST - PUBLIC
+
+/// Feature mask bit: `ssse3` may be reported as detected.
+pub const MASK_SSSE3: u8 = 1;
+/// Feature mask bit: `avx2` may be reported as detected.
+pub const MASK_AVX2: u8 = 2;
+/// Feature mask with every known feature allowed (the default).
+pub const MASK_ALL: u8 = MASK_SSSE3 | MASK_AVX2;
+
+/// ISA index of SSSE3 in the trace word.
+pub const ISA_SSSE3: u32 = 0;
+/// ISA index of AVX2 in the trace word.
+pub const ISA_AVX2: u32 = 1;
+
+/// Primitive index of `mul` in the trace word.
+pub const PRIM_MUL: u32 = 0;
+/// Primitive index of `fft` in the trace word.
+pub const PRIM_FFT: u32 = 1;
+/// Primitive index of `ifft` in the trace word.
+pub const PRIM_IFFT: u32 = 2;
+/// Primitive index of `eval_poly` in the trace word.
+pub const PRIM_EVAL_POLY: u32 = 3;
+
+// ======================================================================
+// STATE - PRIVATE
+
+thread_local! {
+    static FEATURE_MASK: Cell<u8> = const { Cell::new(MASK_ALL) };
+    static TRACE: Cell<u32> = const { Cell::new(0) };
+    static POISON: Cell<u64> = const { Cell::new(0) };
+    static POISON_CALLS: Cell<u64> = const { Cell::new(0) };
+    static POISON_BYTES: Cell<u64> = const { Cell::new(0) };
+}
+
+// ======================================================================
+// FUNCTIONS - PUBLIC - feature mask
+
+/// Restricts what `DefaultEngine` sees as detected CPU features
+/// on the calling thread. Real detection is only ever restricted.
+pub fn set_feature_mask(mask: u8) {
+    FEATURE_MASK.with(|m| m.set(mask));
+}
+
+/// Returns `true` if given feature is allowed by the mask of the calling thread.
+pub fn feature_allowed(feature: &str) -> bool {
+    let mask = FEATURE_MASK.with(Cell::get);
+    match feature {
+        "ssse3" => mask & MASK_SSSE3 != 0,
+        "avx2" => mask & MASK_AVX2 != 0,
+        _ => true,
+    }
+}
+
+// ======================================================================
+// FUNCTIONS - PUBLIC - ISA trace
+
+/// Records that a `target_feature` entry point was reached.
+#[inline(always)]
+pub fn trace(isa: u32, prim: u32) {
+    TRACE.with(|t| t.set(t.get() | 1 << (isa * 4 + prim)));
+}
+
+/// Returns and clears the trace word of the calling thread:
+/// bit `isa * 4 + prim` is set if that entry point was reached.
+pub fn take_trace() -> u32 {
+    TRACE.with(|t| t.replace(0))
+}
+
+// ======================================================================
+// FUNCTIONS - PUBLIC - poison
+
+/// Arms (non-zero seed) or disarms (`0`) poisoning of retained working memory
+/// on the calling thread.
+pub fn set_poison(seed: u64) {
+    POISON.with(|p| p.set(seed));
+}
+
+/// Returns `(calls, bytes)`: how many resizes poisoned something
+/// and how many bytes were overwritten on the calling thread so far.
+pub fn poison_stats() -> (u64, u64) {
+    (POISON_CALLS.with(Cell::get), POISON_BYTES.with(Cell::get))
+}
+
+/// Overwrites `retained` (bytes which survived a resize)
+/// with pseudo-random bytes if poisoning is armed.
+pub(crate) fn poison(retained: &mut [[u8; 64]]) {
+    let mut state = POISON.with(Cell::get);
+    if state == 0 || retained.is_empty() {
+        return;
+    }
+
+    for chunk in retained.iter_mut() {
+        for bytes in chunk.chunks_exact_mut(8) {
+            // xorshift64
+            state ^= state << 13;
+            state ^= state >> 7;
+            state ^= state << 17;
+            bytes.copy_from_slice(&state.to_le_bytes());
+        }
+    }
+
+    POISON.with(|p| p.set(state));
+    POISON_CALLS.with(|c| c.set(c.get() + 1));
+    POISON_BYTES.with(|b| b.set(b.get() + 64 * retained.len() as u64));
+}
